@@ -10,6 +10,10 @@ _EDL = ("rewriting pass leaves index arrays and shape expressions as they are "
         "(value-preserving: einsums inside them are simply not rewritten)")
 
 EXEMPT: dict[tuple[str, str], str] = {
+    ("R20-CONVERSE", "UsersCollector.map_distributed_send_ref_holder:user=expr.send"):
+        "by design the user of the sent data is the send, not the holder: there is no "
+        "dataflow from send.data to the holder (the list collector says so in a comment "
+        "and records no user at all for it)",
     ("R20-CONVERSE", "DistributedSendRefHolder.send.data"):
         "documented in ListOfUsersCollector's docstring: the send-ref holder is "
         "not a user of send.data (no data flows from it into the holder)",
